@@ -295,6 +295,23 @@ def copy_vs_constructor(out, rng):
                             and {k: type(v) for k, v in vars(c2[1]).items()} == {k: type(v) for k, v in vars(f[1]).items()}):
                         out.failures.append(('copy-skip-checks', '%r.copy(skip_checks=True, **%r) gave %r (%r) but constructing it afresh gives %r'
                                              % (fm, ov, c2, vars(c2[1]) if c2[0] == 'ok' else None, f), {'component': 'copy-vs-constructor', 'message': repr(fm), 'overrides': repr(ov)}))
+    # an original that carries a value no constructor would take (it was made with skip_checks=True, the library's own way of building
+    # messages from data it has not looked at): a checked copy(**overrides) of it is still 'a freshly constructed message with those
+    # values' - refused unless the overrides replace what is wrong
+    import mido
+    unchecked = [(mido.Message('note_on', note=60, velocity=300, skip_checks=True), [{'time': 1}, {'note': 5}, {'channel': 2, 'time': 0.5}, {'velocity': 7}, {'velocity': 7, 'time': 2}]),
+                 (mido.Message('control_change', channel=16, skip_checks=True), [{'value': 1}, {'time': 3}, {'channel': 15}, {'control': 9, 'value': 9}]),
+                 (mido.Message('pitchwheel', pitch=9000, skip_checks=True), [{'time': 1}, {'channel': 1}, {'pitch': -8192}]),
+                 (mido.Message('sysex', data=(1, 300), skip_checks=True), [{'time': 2}, {'data': (1, 2)}]),
+                 (mido.Message('program_change', program=1.0, skip_checks=True), [{'channel': 3}, {'program': 1}])]
+    for m0, ovs in unchecked:
+        for ov in ovs:
+            n += 1
+            c = _outcome(lambda: m0.copy(**ov))
+            f = _outcome(lambda: _fresh(m0, ov))
+            if not (c[0] == f[0] and c[0] != 'other' and (c[0] != 'ok' or (c[1] == f[1] and type(c[1]) is type(f[1])))):
+                out.failures.append(('copy-vs-constructor', 'copy(**%r) of a message made with skip_checks=True (%r) gave %r but constructing it afresh gives %r' % (ov, vars(m0), c, f),
+                                     {'component': 'copy-vs-constructor', 'message': repr(vars(m0)), 'overrides': repr(ov)}))
     out.evaluations += n
     out.components['copy-vs-constructor (valid and invalid override sets, implementation against the property statement)'] = {
         'cases': n, 'copies_made': dist_ok, 'rejected': dist_err}
